@@ -34,7 +34,7 @@ def handleSpv (ast : Sexp) (ws : List Sexp) (ins : List Sexp) : String :=
   match parseInputs ins, ws.mapM Sexp.nat? with
   | some inputs, some words =>
     let w := Wgsl.runModule ast inputs 30000
-    let s : Except Spv.Err (List (Nat × List Nat)) :=
+    let s : Except Spv.Err (List (Nat × List Nat) × List Nat) :=
       match Spv.decode words with
       | none => .error (.stuck "binary does not decode")
       | some b =>
@@ -42,10 +42,13 @@ def handleSpv (ast : Sexp) (ws : List Sexp) (ins : List Sexp) : String :=
         | none => .error (.stuck "module tables")
         | some m => Spv.run m "main" (inputs.map (fun (p : Nat × Val) => (p.1, wordsOf p.2))) 20000
     match w, s with
-    | .ok a, .ok b =>
+    | .ok a, .ok (b, notes) =>
       let wa := (a.filter (·.1 == 1)).map (fun p => wordsOf p.2)
       let wb := (b.filter (·.1 == 1)).map (·.2)
-      if wa == wb then s!"agree {wa}" else s!"DISAGREE wgsl{wa} spv{wb}"
+      let scName (n : Nat) : String := if n == 4 then "workgroup" else if n == 6 then "private" else "function"
+      -- a read of a variable that has no initializer and was never stored is undefined in SPIR-V
+      if !notes.isEmpty then s!"DISAGREE wgsl{wa} spv-error[UB: load of an uninitialised {", ".intercalate (notes.map scName)} variable; with zero there: spv{wb}{if wa == wb then " (otherwise equal)" else " (ALSO DIFFERENT)"}]"
+      else if wa == wb then s!"agree {wa}" else s!"DISAGREE wgsl{wa} spv{wb}"
     | .error e, _ => "skip wgsl-" ++ showErrW e
     | .ok _, .error (.unsupported wh) => "skip spv-unsupported: " ++ wh
     | .ok a, .error e => s!"DISAGREE wgsl{(a.filter (·.1 == 1)).map (fun p => wordsOf p.2)} spv-error[{showErrS e}]"
